@@ -5,7 +5,7 @@ from .. import lvlrules as LR
 
 RULES = {
     "K1": "every counter add/sub operand and every order put back into the queue is a function of owned terms (payload of pop/remove, by-value parameter) and scalars only - never of a find()/load() result",
-    "K2": "aggregates are only touched by atomic fetch_add/fetch_sub/load inside the mutators (no load+store split, no operand recomputed from a load)",
+    "K2": "aggregates are only touched by atomic fetch_add/fetch_sub/load inside the mutators (no load+store split, no operand recomputed from a load); the mutator set is discovered from the MIR and no function outside it (or its callees) writes a level's counters or queue",
     "K3": "linear use of owned orders: without any find/remove aliasing, on every path the counter deltas equal the contribution of the orders this thread took minus those it put back (so an early exit between take and re-insert, or a dropped order, is reported)",
     "K4": "single hand-out point: OrderQueue::pop and ::remove return the payload of their own DashMap::remove; find/to_vec only read; nothing else touches the map or the ticket queue",
 }
@@ -37,6 +37,7 @@ def _run(ctx, chk):
     Q = QueueAnalysis(ctx)
     LR.rule_owned_operands(ctx, chk, L, "K1")
     LR.rule_rmw_only(ctx, chk, L, "K2")
+    LR.rule_unanalysed_writers(ctx, chk, L, "K2")
     LR.rule_balance_conc(ctx, chk, L, "K3")
     Q.rule_pop(chk, "K4", "K4", "K4")
     Q.rule_remove_find(chk, "K4")
